@@ -182,6 +182,18 @@ func runBehaviour(cmds []M, rec *recorder, flush bool) {
 	if err != nil {
 		fatal("new: %v", err)
 	}
+	deny := map[string][]string{}
+	if d, ok := cfg["deny"].(map[string]any); ok {
+		for tok, l := range d {
+			ns, _ := l.([]any)
+			for _, n := range ns {
+				deny[tok] = append(deny[tok], n.(string))
+			}
+		}
+	}
+	if err := w.SetDeny(deny); err != nil {
+		fatal("deny: %v", err)
+	}
 	defer w.Close()
 	r := &runner{w: w, rec: rec, first: true}
 	var last M
@@ -223,7 +235,7 @@ func replay(in, out string, flush bool) {
 var (
 	rSubjects = []sh.TS{
 		{Topic: sh.TopicHealth, Subj: "web"}, {Topic: sh.TopicHealth, Subj: "db"}, {Topic: sh.TopicHealth, Subj: "api"},
-		{Topic: sh.TopicHealth, Subj: "px"}, {Topic: sh.TopicConnect, Subj: "web"}, {Topic: sh.TopicConnect, Subj: "db"},
+		{Topic: sh.TopicConnect, Subj: "web"}, {Topic: sh.TopicHealth, Subj: "px"}, {Topic: sh.TopicConnect, Subj: "db"},
 		{Topic: sh.TopicResolver, Subj: "web"}, {Topic: sh.TopicResolver, Subj: "db"}, {Topic: sh.TopicResolver, Subj: "*"},
 	}
 	rNames  = []string{"web", "db", "api"}
@@ -236,7 +248,13 @@ var (
 // clients hold a subscription, which ids it registered); it never looks at results.
 func genRandom(rng *rand.Rand, length int) []M {
 	nc := 3
-	cmds := []M{{"t": "cfg", "ttl": rng.Intn(2) == 0, "nc": nc}}
+	deny := M{}
+	if rng.Intn(2) == 0 { // restricted tokens: subscribers of one subject materialize different subsets
+		deny = M{"t2": []any{"px"}, "t3": []any{[]string{"api", "py", "web"}[rng.Intn(3)]}}
+	}
+	cmds := []M{{"t": "cfg", "ttl": rng.Intn(2) == 0, "nc": nc, "deny": deny}}
+	variant := func() string { return []string{"", "", "1", "2", "3"}[rng.Intn(5)] } // node address: "" = unchanged default
+	nchk := func() string { return []string{"", "", "", "passing", "critical"}[rng.Intn(5)] }
 	idx := uint64(3 + rng.Intn(5))
 	live := make([]bool, nc)
 	ever := make([]*sh.TS, nc)
@@ -262,11 +280,12 @@ func genRandom(rng *rand.Rand, length int) []M {
 			case k < 8:
 				in := inst{rNodes[rng.Intn(len(rNodes))], rIDs[rng.Intn(len(rIDs))]}
 				w = M{"op": "put", "kind": "svc", "node": in.node, "id": in.id, "name": rNames[rng.Intn(len(rNames))], "dest": "",
-					"status": []string{"passing", "critical", "warning"}[rng.Intn(3)]}
+					"status": []string{"passing", "critical", "warning"}[rng.Intn(3)], "addr": variant(), "nchk": nchk()}
 				regs[in] = true
 			case k < 10:
 				in := inst{rNodes[rng.Intn(len(rNodes))], "p" + rIDs[rng.Intn(2)]}
-				w = M{"op": "put", "kind": "svc", "node": in.node, "id": in.id, "name": "px", "dest": rNames[rng.Intn(2)], "status": "passing"}
+				w = M{"op": "put", "kind": "svc", "node": in.node, "id": in.id, "name": []string{"px", "py"}[rng.Intn(2)], "dest": rNames[rng.Intn(2)],
+					"status": "passing", "addr": variant(), "nchk": nchk()}
 				regs[in] = true
 			case k < 14:
 				var ks []inst
@@ -300,6 +319,11 @@ func genRandom(rng *rand.Rand, length int) []M {
 				}
 				w = M{"op": "del", "kind": "ce", "id": n}
 				delete(ces, n)
+			case k < 19:
+				w = M{"op": "multi", "kind": "svc", "id": "m", "dest": rNames[rng.Intn(2)]} // one txn, several events per subject
+				for _, id := range []string{"m1", "m2", "m3"} {
+					regs[inst{"nm", id}] = true
+				}
 			default:
 				w = M{"op": "acl", "kind": "", "tok": rTokens[rng.Intn(len(rTokens))]}
 			}
@@ -319,8 +343,10 @@ func genRandom(rng *rand.Rand, length int) []M {
 				continue
 			}
 			ts := rSubjects[rng.Intn(len(rSubjects))]
-			if rng.Intn(10) < 4 { // a hot subject, so that subscribers share buffers, cached snapshots and resume points
+			if h := rng.Intn(10); h < 3 { // hot subjects, so that subscribers share buffers, cached snapshots and resume points
 				ts = rSubjects[0]
+			} else if h < 5 {
+				ts = rSubjects[3] // connect/web: proxies of several service names, where restricted tokens differ
 			}
 			from := "fresh"
 			if ever[c] != nil && rng.Intn(2) == 0 {
